@@ -19,7 +19,7 @@ RULE = ("Random nested mount tables (depth <=3, 1-4 entries per level, prefixes 
         "trailing slash (exhaustive list, sampled per table; the full list for every 40th table) x initial root paths {'', /root, /r/é}; host tables "
         "of overlapping regex patterns x Host values (exact, prefix, suffix, with port, empty, absent, upper-case). Both interfaces. Non-trivial = "
         "table with >=2 entries of which one prefix is a string prefix of another, or nesting depth >=2, or a 404 outcome; distinct = (table, path, root).")
-RULE += " Also: 2-5 requests in flight together on one Subpaths / Hosts object whose leaves read the request late; tables that list ONE application object under several prefixes / host patterns (the entry taken is read off the root+path the leaf sees, resp. the owning application); Host values spelling out the default port and in other letter case, non-UTF-8 path bytes behind ASCII prefixes (WSGI), root path equal to one of the table's prefixes; one Subpaths / Hosts object per table serves the whole sequence. The first two requests of a fresh process meeting in one Hosts / Subpaths object (thread switch placed at every library line of the first). Prefixes with a literal %2F / %25 / %41 (nothing is unquoted); X-Forwarded-Host and Forwarded decoys next to Host. PATH_INFO left out of the environ when it is empty below a mount."
+RULE += " Also: 2-5 requests in flight together on one Subpaths / Hosts object whose leaves read the request late; tables that list ONE application object under several prefixes / host patterns (the entry taken is read off the root+path the leaf sees, resp. the owning application); Host values spelling out the default port and in other letter case, non-UTF-8 path bytes behind ASCII prefixes (WSGI), root path equal to one of the table's prefixes; one Subpaths / Hosts object per table serves the whole sequence. The first two requests of a fresh process meeting in one Hosts / Subpaths object (thread switch placed at every library line of the first). Prefixes with a literal %2F / %25 / %41 (nothing is unquoted); X-Forwarded-Host and Forwarded decoys next to Host. PATH_INFO left out of the environ when it is empty below a mount. A prefix followed by a semicolon; host patterns with back-references."
 ASSUMPTIONS = [
     "on WSGI SCRIPT_NAME / PATH_INFO are the Latin-1 view of the bytes; the model is applied to the UTF-8 text they stand for (as on ASGI)",
     "'leaves the request untouched' is judged per mount level: at a 404 the request must equal what the innermost non-matching mount received",
